@@ -13,6 +13,15 @@ theorem PyClass.mem_all (c : PyClass) : c ∈ PyClass.all := by cases c <;> deci
 theorem PidState.mem_all (s : PidState) : s ∈ PidState.all := by cases s <;> decide
 theorem Errno.mem_all (e : Errno) : e ∈ Errno.all := by cases e <;> decide
 
+/-- the errors of the sweep: six errnos, on Windows × six `winerror` values -/
+def sweptErrs (p : Platform) : List Err :=
+  if p == .windows then
+    Errno.all.flatMap fun e => [none, some 0, some 5, some 1314, some 299, some 87].map fun w => ⟨e, w⟩
+  else Errno.all.map fun e => ⟨e, none⟩
+
+def sweptEnvs (pid : Nat) : List Env :=
+  PidState.all.flatMap fun s => [true, false].map fun l => ⟨pid, s, l⟩
+
 /-- the action of the first `except` clause that catches class `c` -/
 def dispatch : List Clause → PyClass → Option Action
   | [], _ => none
